@@ -83,6 +83,7 @@ def decode_partitions(line, names_sorted):
 
 class Check(PropCheck):
     pid = 'C05'
+    pure_predicate = True
     rule = ('EXHAUSTIVE: every ordered rooted shape with <= 5 (quick) / 6 (thorough) leaves x EVERY permutation of the leaf names '
             '(two alphabets: letters, Tip_10-style), each with variants: children reordered, unary nodes inserted, root redrawn '
             '(2-child <-> 3-child), taxa renamed; plus random trees to 40 / 300 leaves (crossing the 32-bit block boundary); '
